@@ -62,7 +62,15 @@ class Group:
 
 
 def make_group(rng, kind, gi):
-    if kind in ("fn", "mod"):
+    nodeps_item = kind in ("fn0", "mod0")
+    if nodeps_item:
+        # items without a dependency parameter: rejected unless `no_deps` is given - `no_deps = false` and an omitted `no_deps`
+        # have to be rejected alike (same diagnostic), neither may be read as `no_deps`
+        item = {"fn0": rng.choice(["fn target() -> i32 { 1 }", "pub async fn target() {}", "fn target<T: Default>() -> T { T::default() }"]),
+                "mod0": rng.choice(["mod target { pub fn f() {} pub fn g<D>(deps: &D) {} }", "pub mod target { pub fn g<D>(deps: &D) {} pub(crate) fn f() -> u8 { 1 } }"])}[kind]
+        kind = kind[:-1]
+        first = "Subj"
+    elif kind in ("fn", "mod"):
         item, depk = items_for(rng, kind, gi)
         first = "Subj"
     else:
@@ -71,8 +79,8 @@ def make_group(rng, kind, gi):
     g = Group(kind, item)
     # choose an option set valid for this target
     pool = [o for o, t in TABLE.items() if kind in t]
-    if kind == "fn":
-        pool = [o for o in pool if o != "no_deps"]   # the item has a deps parameter
+    if kind == "fn" or nodeps_item:
+        pool = [o for o in pool if o != "no_deps"]   # the item has a deps parameter (or is meant to be rejected for the lack of one)
     k = rng.randint(0, min(4, len(pool)))
     chosen = rng.sample(pool, k)
     forms = {}
@@ -109,7 +117,7 @@ def make_group(rng, kind, gi):
         g.variants.append(("bare-vs-true", "entrait", args(alt), "A", "off"))
     # `= false` vs omitted for no_deps / export
     for o in ("no_deps", "export"):
-        if kind in TABLE[o] or (o == "no_deps" and kind == "fn"):
+        if kind in TABLE[o] or (o == "no_deps" and (kind == "fn" or nodeps_item)):
             if o not in forms:
                 f2 = dict(forms)
                 f2[o] = "false"
@@ -186,7 +194,7 @@ def run(tier, seed):
     rng = core.rng_for(PROP, seed)
     groups = []
     for gi in range(n):
-        kind = rng.choice(["fn", "fn", "mod", "mod", "trait", "trait", "impl"])
+        kind = rng.choice(["fn", "fn", "mod", "mod", "trait", "trait", "impl"] * 3 + ["fn0", "mod0"])
         groups.append(make_group(rng, kind, gi))
     cases = {"off": [], "on": []}
     index = {}
